@@ -157,7 +157,7 @@ func inlinable(fn *ssa.Function) bool {
 			}
 		}
 	}
-	return n <= 120 && fn.Recover == nil
+	return n <= 120
 }
 
 func (fr *frame) call(v *ssa.Call, cc *ssa.CallCommon, st *State, R string, b *ssa.BasicBlock) {
@@ -253,8 +253,16 @@ func pkgOfName(s string) string {
 }
 
 func (fc *FnCtx) syncMapComps() (string, string) {
-	fc.compDecl("SM:V", "(Array Int (Array Int Int))")
-	fc.compDecl("SM:D", "(Array Int (Array Int Bool))")
+	if _, ok := fc.compSort["SM:V"]; !ok {
+		fc.compDecl("SM:V", "(Array Int (Array Int Int))")
+		fc.compDecl("SM:D", "(Array Int (Array Int Bool))")
+		// heap well-formedness at entry: every reference stored in a sync.Map was allocated before the function started
+		if fc.entry != nil {
+			fc.P.needTagof()
+			v0 := fc.lookup(fc.entry, "SM:V")
+			fc.fact("", "(forall ((m Int) (k Int)) (! (< (ptrin (select (select %s m) k)) %s) :pattern ((select (select %s m) k))))", v0, fc.entry.comp["TOP"], v0)
+		}
+	}
 	return "SM:V", "SM:D"
 }
 
@@ -483,6 +491,9 @@ func (fr *frame) intrinsic(v *ssa.Call, res, name string, cc *ssa.CallCommon, st
 		smv, smd := fc.syncMapComps()
 		m := arg(0)
 		V, D := fc.lookup(st, smv), fc.lookup(st, smd)
+		// values already in the map were allocated before this call
+		fc.P.needTagof()
+		fc.fact("", "(< (ptrin (select (select %s %s) %s)) %s)", V, m, arg(1), st.comp["TOP"])
 		switch strings.TrimPrefix(name, "(*sync.Map).") {
 		case "Load":
 			fc.fact("", "(= %s_r1 (select (select %s %s) %s))", res, D, m, arg(1))
@@ -564,11 +575,7 @@ func (fr *frame) intrinsic(v *ssa.Call, res, name string, cc *ssa.CallCommon, st
 func (fr *frame) calleeEnv(ctr *FuncContract, callee *ssa.Function, cc *ssa.CallCommon, argTerms []string, argTypes []types.Type, resName string, resT types.Type, pre, post *State) *Env {
 	fc := fr.fc
 	var tpkg *types.Package
-	if p, ok := fc.eng.Pkgs[ctr.Pkg]; ok {
-		tpkg = p.Types
-	} else {
-		tpkg = fc.findPkgByPath(ctr.Pkg)
-	}
+	tpkg = fc.pkgTypes(ctr.Pkg)
 	env := &Env{fc: fc, tpkg: tpkg, names: map[string]TV{}, cur: post, old: pre}
 	var pnames []string
 	if callee != nil && callee.Blocks != nil && len(ctr.Params) == 0 {
@@ -628,6 +635,16 @@ func bindResults(env *Env, fc *FnCtx, resName string, resT types.Type, sig *type
 	if sig != nil && sig.Results().Len() == 1 && sig.Results().At(0).Name() != "" {
 		env.names[sig.Results().At(0).Name()] = tv
 	}
+}
+
+func (fc *FnCtx) pkgTypes(path string) *types.Package {
+	if path == "" {
+		return nil
+	}
+	if p, ok := fc.eng.Pkgs[path]; ok {
+		return p.Types
+	}
+	return fc.findPkgByPath(path)
 }
 
 func (fc *FnCtx) findPkgByPath(path string) *types.Package {
@@ -857,6 +874,12 @@ func (fr *frame) resolveModItem(env *Env, item string) []modTarget {
 		}
 		return []modTarget{{key: k, ref: x.T}}
 	case *ECall:
+		if e.Fun == "cells" && len(e.Args) == 1 {
+			if ts, ok := e.Args[0].(*EStr); ok {
+				T, _ := fc.resolveType(ts.Val, env.tpkg)
+				return []modTarget{{key: fc.cellComp(T)}}
+			}
+		}
 		if e.Fun == "smap" && len(e.Args) == 1 {
 			smv, smd := fc.syncMapComps()
 			a := env.tr(e.Args[0])
@@ -1020,9 +1043,7 @@ func (fr *frame) makeClosure(in *ssa.MakeClosure, st *State, R string) {
 	}
 	// forall args. app(clo, args) == E[freevars := current cell contents]
 	var tpkg *types.Package
-	if p, ok := fc.eng.Pkgs[ctr.Pkg]; ok {
-		tpkg = p.Types
-	}
+	tpkg = fc.pkgTypes(ctr.Pkg)
 	env := &Env{fc: fc, tpkg: tpkg, names: map[string]TV{}, cur: st}
 	for i, fv := range fn.FreeVars {
 		b := in.Bindings[i]
